@@ -3,27 +3,9 @@
 (* `register` maintains, the merged views (Names, Sources), and Filter.                        *)
 (* A lint is a record [name, kind, source]; names are integers standing for their rank in      *)
 (* lexicographic order (TLC cannot order strings), 0 is "a name registered nowhere".           *)
-EXTENDS Integers, Sequences, FiniteSets, TLC
+EXTENDS FilterFn, TLC
 
 Kinds == {"cert", "crl", "ocsp"}
-
-\* ---------------------------------------------------------------- Filter as a function (C08)
-\* option record: xs, is : sets of sources; nf : "nil" or a match-set id; xn, inn : sets of <<name, pad>>
-\* (pad is whatever TrimSpace removes; the name is what is left).  listsGiven: any token at all.
-TrimTok(e) == e[1]
-EmptyOpts(o) == o.nf = "nil" /\ o.xn = {} /\ o.inn = {} /\ o.xs = {} /\ o.is = {}
-NamesOf(R) == {x.name : x \in R}
-FilterResult(R, o, MatchSets) ==
-  IF EmptyOpts(o) THEN [err |-> "none", same |-> TRUE, sel |-> R]
-  ELSE LET ex == {TrimTok(e) : e \in o.xn}  inc == {TrimTok(e) : e \in o.inn} IN
-       IF \E n \in ex \cup inc : n \notin NamesOf(R) THEN [err |-> "unknown", same |-> FALSE, sel |-> {}]
-       ELSE IF o.nf # "nil" /\ (ex # {} \/ inc # {}) THEN [err |-> "conflict", same |-> FALSE, sel |-> {}]
-       ELSE [err |-> "none", same |-> FALSE,
-             sel |-> {x \in R : /\ x.source \notin o.xs
-                                /\ (o.is = {} \/ x.source \in o.is)
-                                /\ (o.nf = "nil" \/ x.name \in MatchSets[o.nf])
-                                /\ x.name \notin ex
-                                /\ (inc = {} \/ x.name \in inc)}]
 
 \* ---------------------------------------------------------------- the tables (C12)
 \* one registry: per kind, what register() maintains
